@@ -1,6 +1,6 @@
 #!/bin/sh
 # usage: tools/seed_sweep.sh "<seeds>" "<checks>"  -- run quick checks under several seeds, print one line each
-cd /verif 2>/dev/null || true
+cd "$(dirname "$(readlink -f "$0")")/.."
 for s in $1; do for c in $2; do
   VERIF_SEED=$s ./check $c --tier quick > /tmp/sweep_${c}_$s.log 2>&1; rc=$?
   echo "seed=$s $c rc=$rc $(grep -v '^KNOWN\|^  ' /tmp/sweep_${c}_$s.log | tail -1 | cut -c1-140)"
